@@ -22,13 +22,14 @@ type Strategy struct {
 	Split       bool    // directed split: X-votes to group A only, Y-votes to group B only
 	Impersonate bool    // S7: votes in the name of other members with junk signatures, delivered twice
 	FastLinks   bool    // adversary-to-honest links are not subject to the scheduler latency class
+	SuppTwist   bool    // S8: own votes signed over supplemental data with other commitments (same power-table CID) or another power-table CID
 	Disciplined bool    // never leak a camp\'s value to the other camp: follow-ups only towards the camp that voted for the value; no replays
 	ActProb     float64 // probability to act on an opportunity
 	MaxSends    int
 }
 
 func (s Strategy) String() string {
-	return fmt.Sprintf("equiv=%v forge=%v misplace=%v foreign=%v replay=%v split=%v impersonate=%v p=%.2f", s.Equivocate, s.Forge, s.Misplace, s.Foreign, s.Replay, s.Split, s.Impersonate, s.ActProb)
+	return fmt.Sprintf("equiv=%v forge=%v misplace=%v foreign=%v replay=%v split=%v impersonate=%v supptwist=%v p=%.2f", s.Equivocate, s.Forge, s.Misplace, s.Foreign, s.Replay, s.Split, s.Impersonate, s.SuppTwist, s.ActProb)
 }
 
 func genStrategy(rng *rand.Rand, sc *Scenario) Strategy {
@@ -43,6 +44,7 @@ func genStrategy(rng *rand.Rand, sc *Scenario) Strategy {
 	s.Impersonate = rng.Intn(3) == 0
 	s.FastLinks = rng.Intn(3) == 0
 	s.Disciplined = s.Split && rng.Intn(3) == 0
+	s.SuppTwist = !s.Disciplined && rng.Intn(3) == 0
 	return s
 }
 
@@ -462,6 +464,18 @@ func (a *Adversary) vote(tmpl string, mi int, inst, round uint64, phase gpbft.Ph
 	p := gpbft.Payload{Instance: inst, Round: round, Phase: phase, SupplementalData: a.w.SuppData(inst), Value: value}
 	if value == nil {
 		p.Value = &gpbft.ECChain{}
+	}
+	if a.st.SuppTwist && a.rng.Intn(3) == 0 {
+		// S8: a validly signed vote over other supplemental data. Honest participants must not count
+		// it (wrong supplemental data is a documented late-binding rejection); if one is counted, the
+		// decision's aggregate no longer verifies over the instance's payload (C03) or a quorum is
+		// reached that honest votes alone do not give (C01/C07).
+		if a.rng.Intn(3) != 0 {
+			p.SupplementalData.Commitments[a.rng.Intn(32)] ^= byte(1 << a.rng.Intn(8))
+		} else {
+			p.SupplementalData.PowerTable = gpbft.MakeCid([]byte(fmt.Sprintf("twisted-%d", a.rng.Int63())))
+		}
+		tmpl = "S8-supp-twist"
 	}
 	a.sendOnce(tmpl, mi, a.build(mi, p, j), dests, delay)
 	return true
